@@ -183,7 +183,15 @@ pub fn apply(w: &mut RouterWorld, cfg: &Cfg, a: &Act) {
         Act::Ping { c } => w.send(*c as usize, vec![Tx::PingReq]),
         Act::DiscPkt { c } => w.send(*c as usize, vec![Tx::Disconnect]),
         Act::Drop { c } => end_link(w, *c as usize, vec![LateEv::Disconnect, LateEv::Will], true),
-        Act::DropLate { c } => end_link(w, *c as usize, vec![LateEv::Disconnect, LateEv::Will], false),
+        Act::DropLate { c } => {
+            // C14: the ended link's Ready and DeviceData signals may be late as well
+            let evs = if cfg.prop == "C14" {
+                vec![LateEv::Ready, LateEv::Data, LateEv::Disconnect, LateEv::Will]
+            } else {
+                vec![LateEv::Disconnect, LateEv::Will]
+            };
+            end_link(w, *c as usize, evs, false)
+        }
         Act::DiscThenDrop { c } => {
             w.send(*c as usize, vec![Tx::Disconnect]);
             end_link(w, *c as usize, vec![LateEv::Disconnect, LateEv::Will], false);
